@@ -52,11 +52,18 @@ struct SessState {
     welcome: Option<String>,
     open_inv: u64,
     open_ret: u64,
+    /// wall clock (ms since the start of the scenario) at which the end of the connection was seen
+    closed_ms: Option<u64>,
 }
 
 struct Shared {
     clock: AtomicU64,
     names: Mutex<Names>,
+    t0: std::time::Instant,
+}
+
+fn now_ms(sh: &Shared) -> u64 {
+    sh.t0.elapsed().as_millis() as u64
 }
 
 /// is some socket listening on this TCP port? (read-only: /proc/net/tcp)
@@ -240,7 +247,10 @@ async fn reader_task(
                 notify.notify_waiters();
             }
             _ => {
-                st.lock().await.closed_by_server = true;
+                let mut g = st.lock().await;
+                g.closed_by_server = true;
+                g.closed_ms = Some(now_ms(&sh));
+                drop(g);
                 notify.notify_waiters();
                 break;
             }
@@ -321,6 +331,10 @@ async fn run_session(
                 }
                 continue;
             }
+            "sleep" => {
+                tokio::time::sleep(Duration::from_millis(u(&item, "ms"))).await;
+                continue;
+            }
             "close" => {
                 if open {
                     rec["inv"] = json!(tick(&sh));
@@ -381,6 +395,7 @@ async fn run_session(
         {
             let mut g = st.lock().await;
             rec["inv"] = json!(tick(&sh));
+            rec["inv_ms"] = json!(now_ms(&sh));
             rec["rep"] = json!({"t": "none"});
             g.log.push(rec);
             idx = g.log.len() - 1;
@@ -481,7 +496,7 @@ async fn run_scenario(sc: Value, sock: PathBuf, meaning: Map<String, Value>) -> 
         }
         tokio::time::sleep(Duration::from_millis(5)).await;
     }
-    let sh = Arc::new(Shared { clock: AtomicU64::new(0), names: Mutex::new(Names::new(meaning)) });
+    let sh = Arc::new(Shared { clock: AtomicU64::new(0), names: Mutex::new(Names::new(meaning)), t0: std::time::Instant::now() });
     let sessions = sc["sessions"].as_object().cloned().unwrap_or_default();
     // barriers: every session that mentions barrier n takes part
     let mut counts: HashMap<u64, usize> = HashMap::new();
@@ -554,7 +569,7 @@ async fn run_scenario(sc: Value, sock: PathBuf, meaning: Map<String, Value>) -> 
     for (name, st, _wr, _n) in &all {
         let g = st.lock().await;
         sess_out.insert(name.clone(), json!({"cid": name, "log": g.log, "closed": g.closed_by_server, "welcome": g.welcome.is_some(),
-                                          "open_inv": g.open_inv, "open_ret": g.open_ret}));
+                                          "open_inv": g.open_inv, "open_ret": g.open_ret, "closed_ms": g.closed_ms}));
         for (tid, evs) in &g.streams {
             streams.insert(format!("{name}:{tid}"), Value::Array(evs.clone()));
         }
